@@ -48,6 +48,9 @@ def cases(ctx):
         comp = r.random() < 0.5
         prefix = r.choice([0, 0x6F, r.randrange(256)])
         yield {"k": "key", "x": "%064x" % x, "compressed": comp, "prefix": prefix}
+        if i % 4 == 0:
+            yield {"k": "random_key"}
+            yield {"k": "preset", "hash": (b"\x00" * r.choice([0, 0, 1, 3]) + gen.rbytes(r, 20))[:20].hex(), "preset": r.choice(["mainnet", "testnet", "regtest", "stn", "default"])}
         y = r.randrange(1, ec.N)
         yield {"k": "unlock", "x": "%064x" % x, "compressed": comp, "prefix": prefix, "other": "%064x" % y, "other_compressed": r.random() < 0.5, "flag": r.choice([0x41, 0x01, 0xC3])}
         wif = ref_wif(x, comp)
@@ -211,6 +214,41 @@ def judge(ctx, case):
             ctx.viol("P2PKH locking script differs from 76a914<hash>88ac", {"got": str(ao["locking"])[:120]})
         if ao["reparse"].get("ok") != {"string": ref_addr(h160, p), "hash": h160.hex()}:
             ctx.viol("address does not round-trip through its string (prefix %s)" % ("0x00" if p == 0 else "non-zero"), {"got": str(ao["reparse"])[:200]})
+    elif k == "random_key":
+        r = ctx.call({"op": "privkey", "random": True})
+        ctx.ev()
+        if "ok" not in r:
+            ctx.viol("a randomly generated private key cannot be encoded / its public key derived", {"resp": str(r)[:200]})
+            return
+        o = r["ok"]
+        x = int(o["bytes"], 16)
+        comp = o["pub_compressed"]
+        if not (1 <= x < ec.N) or len(o["bytes"]) != 64:
+            ctx.viol("PrivateKey::from_random returned a scalar outside [1, n-1]", {"bytes": o["bytes"]})
+            return
+        Q = ec.mul_g(x)
+        for name, got, exp in (("to_wif", o["wif"], ref_wif(x, comp)), ("to_public_key", o["pub"], ec.ser(Q, comp).hex()), ("get_point", o["point"], ec.ser(Q, comp).hex()), ("flipped", o["flipped"]["wif"], ref_wif(x, not comp))):
+            ctx.ev()
+            if got != exp:
+                ctx.viol("randomly generated private key: accessor %s differs from the reference" % name, {"got": str(got)[:120], "exp": str(exp)[:120]})
+        r2 = ctx.call({"op": "privkey", "wif": o["wif"]})
+        ctx.ev()
+        if "ok" not in r2 or (r2["ok"]["bytes"], r2["ok"]["pub"]) != (o["bytes"], o["pub"]):
+            ctx.viol("randomly generated private key does not round-trip through WIF", {"resp": str(r2)[:200]})
+    elif k == "preset":
+        h = bytes.fromhex(case["hash"])
+        a = ctx.call({"op": "addr", "hash": case["hash"], "preset": case["preset"]})
+        ctx.ev()
+        ao = a.get("ok")
+        if ao is None or not isinstance(ao.get("preset_prefix"), int):
+            ctx.viol("address with a preset network could not be built", {"resp": str(a)[:200]})
+            return
+        p = ao["preset_prefix"]
+        s = ref_addr(h, p)
+        if ao["string"].get("ok") != s or ao["hash"] != case["hash"]:
+            ctx.viol("address under a preset network (ChainParams::%s) differs from Base58Check(prefix || hash)" % case["preset"], {"got": str(ao["string"])[:100], "exp": s})
+        if ao["reparse"].get("ok") != {"string": s, "hash": case["hash"]}:
+            ctx.viol("address under a preset network does not round-trip through its string (ChainParams::%s)" % case["preset"], {"got": str(ao["reparse"])[:200]})
     elif k == "addr_hash":
         h = bytes.fromhex(case["hash"])
         p = case["prefix"]
